@@ -87,6 +87,10 @@ class Fixture(object):
                                                            {"sync_request_timeout": FAR})
         finally:
             protocol.Lock, protocol.Condition = self._saved[-2][2], self._saved[-1][2]
+        # auxiliary locks of the working tree (not part of the modelled protocol): schedulable, but silent when uncontended
+        for attr in ("_cleanup_lock", "_proxy_count_lock"):
+            if hasattr(conn, attr):
+                setattr(conn, attr, sim.QuietSimLock(s, attr))
         try:
             conn._recvlock.name = "recv"
             conn._recv_event.name = "cond"
